@@ -5,8 +5,16 @@ export GOFLAGS=-mod=mod GOPROXY=off GOSUMDB=off GOTOOLCHAIN=local
 cd "$(dirname "$0")/harness" || exit 1
 mkdir -p ../.build/bin
 rc=0
-for d in p_*; do
-  [ -d "$d" ] || continue
+for d in $(python3 - <<'PY'
+import sys; sys.path.insert(0, '..')
+from checks_config import CHECKS
+s=set()
+for c in CHECKS.values():
+    for u in c['units']:
+        if not u.get('race', c.get('race', False)): s.add(u.get('pkg', c['pkg']))
+print(' '.join(sorted(s)))
+PY
+); do
   go test -c -tags verif -o ../.build/bin/$d.test ./$d || rc=1
 done
 for d in $(python3 - <<'PY'
